@@ -15,6 +15,8 @@ Each is a necessary condition of the statement: with other knots the sample is n
 newest entry is not the signal at the step start, with another `fp` the entry is not the sender's signal."""
 from __future__ import annotations
 
+import ast
+
 from .. import terms as T
 from ..report import Check
 from ..symeval import SymEval
@@ -57,7 +59,87 @@ def _norm(t):
     return _norm(T.subst(t, m))
 
 
+def _resolve(mi, node):
+    """dotted name of an expression with the module's import aliases expanded (jnp.interp -> jax.numpy.interp)"""
+    parts = []
+    while isinstance(node, ast.Attribute):
+        parts.append(node.attr)
+        node = node.value
+    if not isinstance(node, ast.Name):
+        return None
+    head = mi.imports.get(node.id, node.id)
+    return ".".join([head] + list(reversed(parts)))
+
+
+def _literal(mi, node):
+    """value of a literal, or of a module-level name bound once to a literal; ... (Ellipsis) when it cannot be read"""
+    try:
+        return ast.literal_eval(node)
+    except Exception:
+        pass
+    if isinstance(node, ast.Name):
+        vals = [st.value for st in mi.tree.body if isinstance(st, ast.Assign) and len(st.targets) == 1 and isinstance(st.targets[0], ast.Name) and st.targets[0].id == node.id]
+        if len(vals) == 1:
+            try:
+                return ast.literal_eval(vals[0])
+            except Exception:
+                pass
+    return ...
+
+
+def rule_axes(chk: Check, model):
+    """Batched interpolation: jax.vmap(jnp.interp, in_axes=(None, None, a)) maps the flattened trailing axis `a` of the values; the
+    result is reshaped straight back to (window, ...) — that only restores the layout when the mapped axis comes out where it went
+    in (out_axes == a; the default 0 puts it first and the reshape then interleaves entries of different messages)."""
+    rid = "C11.axes"
+    chk.rule(rid, "the batched interpolation keeps the mapped axis in place: jax.vmap(jnp.interp, in_axes=(None, None, a), out_axes=a) before the result is reshaped to "
+                  "(window, ...) — otherwise entries of different messages are interleaved for payloads with more than one trailing element")
+    mi = next((m for m in model.modules.values() if m.name == "base" or m.path.endswith("rex/base.py")), None)
+    if mi is None:
+        chk.unknown(rid, "module", "rex/base.py not found")
+        return
+    parents = {}
+    for nd in ast.walk(mi.tree):
+        for ch in ast.iter_child_nodes(nd):
+            parents[ch] = nd
+    n = 0
+    for nd in ast.walk(mi.tree):
+        if not (isinstance(nd, ast.Call) and _resolve(mi, nd.func) in ("jax.vmap", "equinox.filter_vmap") and nd.args and (_resolve(mi, nd.args[0]) or "").endswith("numpy.interp")):
+            continue
+        n += 1
+        kw = {k.arg: k.value for k in nd.keywords if k.arg}
+        in_node = kw.get("in_axes", nd.args[1] if len(nd.args) > 1 else None)
+        out_node = kw.get("out_axes", nd.args[2] if len(nd.args) > 2 else None)
+        in_axes = _literal(mi, in_node) if in_node is not None else 0
+        out_axes = _literal(mi, out_node) if out_node is not None else 0
+        loc = f"{mi.path}:{nd.lineno}"
+        if in_axes is ... or out_axes is ...:
+            chk.unknown(rid, "vmap(interp) axes", "in_axes / out_axes of the batched interpolation are not literals", loc)
+            continue
+        a = in_axes[2] if isinstance(in_axes, (tuple, list)) and len(in_axes) == 3 else (in_axes if isinstance(in_axes, int) else ...)
+        if a is ... or (isinstance(in_axes, (tuple, list)) and (in_axes[0] is not None or in_axes[1] is not None)):
+            chk.unknown(rid, "vmap(interp) axes", f"in_axes = {in_axes!r}: expected (None, None, <axis of the values>)", loc)
+            continue
+        if out_axes == a:
+            chk.add(rid, "vmap(interp): mapped axis comes out where it went in", True, "", loc)
+            continue
+        # the result may still be moved back explicitly before it is reshaped
+        st = nd
+        while st in parents and not isinstance(st, ast.stmt):
+            st = parents[st]
+        moved = any((isinstance(x, ast.Attribute) and x.attr in ("T", "transpose", "swapaxes", "moveaxis")) or
+                    (isinstance(x, ast.Name) and x.id in ("transpose", "swapaxes", "moveaxis")) for x in ast.walk(st))
+        if moved:
+            chk.unknown(rid, "vmap(interp) axes", f"in_axes = {in_axes!r}, out_axes = {out_axes!r} with an explicit transposition nearby: not read here", loc)
+        else:
+            chk.add(rid, "vmap(interp): mapped axis comes out where it went in", False, f"jax.vmap(jnp.interp, in_axes={in_axes!r}, out_axes={out_axes!r}): the values are mapped "
+                    f"over axis {a} but the results are stacked along axis {out_axes}, and the following reshape to (window, ...) interleaves entries of different messages "
+                    "whenever the payload has more than one trailing element", loc)
+    chk.floor(rid, "batched interpolations", n, 1)
+
+
 def run(chk: Check, model):
+    rule_axes(chk, model)
     chk.rule("C11.knots", "the interpolation knots are the delayed arrival times ts_sent + min + alpha (max - min) (dummy entries: their own receive time), the same array "
                           "the arrival search uses; `linear_real_only` replaces the dummy entries by a constant far in the past, `linear` does not")
     chk.rule("C11.query", "the query times are the window-sized slice of the knots ending at the newest arrived message, shifted so that the newest one is exactly the step "
